@@ -64,9 +64,9 @@ pub enum Op {
     SetMaxDefault,
     /// send n fresh messages to a second, unlimited topic of the same stream (created on first use)
     SendOther(u8),
-    /// a third partition is created, receives five messages (several segments), and is deleted again
+    /// a third partition is created, receives two batches (so that it owns several segments), and is deleted again
     PartitionComesAndGoes,
-    /// a further topic is created, receives five messages (several segments), and is deleted again
+    /// a further topic is created, receives two batches (several segments), and is deleted again
     TopicComesAndGoes,
 }
 
@@ -497,10 +497,15 @@ impl World {
                 // nothing of this survives the operation, so it does not need to be journalled: the System
                 // functions the handlers call are called directly
                 let topic_variant = matches!(op, Op::TopicComesAndGoes);
-                let mut msgs = Vec::new();
-                for _ in 0..5 {
-                    self.seq += 1;
-                    msgs.push(Message::new(Some(7000 + self.seq as u128), Bytes::from(format!("transient-{:04}", self.seq).into_bytes()), None));
+                // two appends: the first fills and closes a segment, the second opens the next one
+                let mut batches: Vec<Vec<Message>> = Vec::new();
+                for n in [5, 3] {
+                    let mut msgs = Vec::new();
+                    for _ in 0..n {
+                        self.seq += 1;
+                        msgs.push(Message::new(Some(7000 + self.seq as u128), Bytes::from(format!("transient-{:04}", self.seq).into_bytes()), None));
+                    }
+                    batches.push(msgs);
                 }
                 let shared = self.node.shared();
                 let root = self.node.root.clone();
@@ -514,7 +519,7 @@ impl World {
                             system.create_partitions(&root, &sid(), &sid(), 1).await?;
                         }
                     }
-                    {
+                    for msgs in batches {
                         let system = shared.read().await;
                         if topic_variant {
                             system.append_messages(&root, sid(), t9.clone(), Partitioning::partition_id(1), msgs, None).await?;
